@@ -45,7 +45,7 @@ import ast
 import re
 
 from translate_core import (TranslateError, FunTr, Val, src_of, parse, body_no_doc, coq_str, find_function, plain_params,
-                            forbid_dynamic, leading_imports, assigned_names)
+                            forbid_dynamic, leading_imports, assigned_names, builtins_unshadowed)
 
 EXTRACT = "cij/cli/extract.py"
 GEOTHERM = "cij/cli/geotherm.py"
@@ -86,10 +86,12 @@ def click_signature(fn, file, command):
         if explicit:
             param = explicit[0]
         else:
-            # click: the longest dashed name wins (the first among equals), dashes -> underscores
-            best = sorted(dashed, key=lambda n: -len(n.lstrip("-")))[0]
-            best = max(dashed, key=lambda n: len(n.lstrip("-")))
+            # click (Option._parse_decls): candidates sorted by the length of their dash prefix, longest first, stable;
+            # the first one names the parameter, dashes -> underscores, lower case
+            best = sorted(dashed, key=lambda n: -(len(n) - len(n.lstrip("-"))))[0]
             param = best.lstrip("-").replace("-", "_").lower()
+            if not param.isidentifier():
+                raise TranslateError(file, d, "click.option name %r does not give an identifier" % best)
         info = dict(opts=dashed, default=None, has_default=False, type=None, flag=False, required=False)
         for k in d.keywords:
             if k.arg in ("help", "show_default"):
@@ -153,6 +155,8 @@ def main_guard_ok(mod, file, names):
 # ==========================================================================================================
 
 class CliTr(FunTr):
+    mutable_types = frozenset(["dict:series", "oframe", "frame"])    # the types the grammar has in-place stores for
+
     def __init__(self, file, source, module_functions=()):
         super().__init__(file, source)
         self.module_functions = set(module_functions)
@@ -427,6 +431,7 @@ def translate_extract(source):
     """-> dict(load_data=(text, facts) | TranslateError, main=(text, info) | TranslateError)"""
     mod = parse(source)
     main_guard_ok(mod, EXTRACT, {"load_data", "main"})
+    builtins_unshadowed(mod, EXTRACT, {"sorted", "float", "print"})
     out = {}
     try:
         out["load_data"] = translate_load_data(mod, EXTRACT, source, "gx")
@@ -528,6 +533,7 @@ def translate_geotherm(source):
     """-> dict(load_data=(text, facts) | TranslateError, main=(text, consts, info) | TranslateError)"""
     mod = parse(source)
     main_guard_ok(mod, GEOTHERM, {"load_data", "fit_data", "main"})
+    builtins_unshadowed(mod, GEOTHERM, {"sorted", "float", "print"})
     out = {}
     try:
         out["load_data"] = translate_load_data(mod, GEOTHERM, source, "gg")
